@@ -11,7 +11,7 @@ from archlib import NP, decode_tok, batch_kwargs, solution_of, to_dtype, fr
 from core import Driver, Failure, q, ql
 
 ID = "C15"
-PROOF_MODULES = ["PyribsProofs.C15"]
+PROOF_MODULES = ["PyribsProofs.C15", "PyribsProofs.C15b"]
 THEOREMS = [
     "Pyribs.C15.insertionSort_sorted",
     "Pyribs.C15.insertionSort_perm",
@@ -29,6 +29,9 @@ THEOREMS = [
     "Pyribs.C15.remap_iff",
     "Pyribs.C15.buffer_spec",
     "Pyribs.C15.nonvacuous",
+    "Pyribs.C15b.good_addSingle",
+    "Pyribs.C15b.good_history",
+    "Pyribs.C15b.good_new",
 ]
 RULE = ("lock-step insertion histories (add_single, batch add, clear, retrieve) through several remaps for dims 1-3, "
         "initial ranges that do and do not contain the data, remap_frequency in {2,3,4,7}, buffer_capacity smaller / "
